@@ -292,6 +292,17 @@ func replayCovers(n *Native, job *Job, v *Violation) (ReplayResult, bool) {
 	got := lineFor(out, row)
 	v.Witness["native-program"] = conc
 	res := ReplayResult{Cmd: "ti ./a.rb   # " + fmt.Sprintf("%q", conc)}
+	if mh, have := v.Witness[v.ID+".musthave"]; have {
+		okAll := true
+		for _, k := range strings.Split(mh, ",") {
+			if !strings.Contains(got, k) {
+				okAll = false
+			}
+		}
+		res.Reproduced = !okAll
+		res.Observed = fmt.Sprintf("row %s: native reports %q, which must name all of %s", row, got, mh)
+		return res, true
+	}
 	if cov, have := v.Witness[v.ID+".covers"]; have {
 		ok := got == "untyped"
 		if !ok {
@@ -623,8 +634,12 @@ func replayPreload(n *Native, job *Job, v *Violation) (ReplayResult, bool) {
 	var pre int
 	fmt.Sscanf(v.Witness["C18.prelines"], "%d", &pre)
 	cfg := nativeConfigFor(n, job, whole)
-	outWhole, _, _ := n.RunTi(map[string]string{"a.rb": cw}, []string{"./a.rb"}, cfg)
-	outSplit, _, _ := n.RunTi(files, []string{"./a.rb"}, cfg)
+	args := []string{"./a.rb"}
+	if fl := v.Witness["flags"]; fl != "" {
+		args = append(args, strings.Fields(fl)...)
+	}
+	outWhole, _, _ := n.RunTi(map[string]string{"a.rb": cw}, args, cfg)
+	outSplit, _, _ := n.RunTi(files, args, cfg)
 	want := dropShift(outWhole, 1, pre)
 	res := ReplayResult{Cmd: "ti ./a.rb with .ti-loader.json + preload files vs. ti on the concatenation",
 		Observed: fmt.Sprintf("concatenation (target part, rebased): %q; preload run: %q", want, outSplit)}
